@@ -662,10 +662,12 @@ MANIFEST = dict(
     text="Proved: x[i] accepted iff 0<=i<n else IndexError; x[i:j] accepted iff no step and 0<=i<=j<=n (bounds within "
          "Py_ssize_t) else IndexError, state untouched; slice view at x+i*size of length j-i aliasing x[i+k]; slice "
          "assignment from an iterable needs exactly j-i values; (p+i)[j] = p[i+j]; (p+i)-p = i; owning pointer only "
-         "index 0; offsetof('T[]',i) = i*size or OverflowError; addressof(x,i) = x+i; history invariant: after any "
-         "sequence of index/slice/slice-assignment operations on an owned array and its views no access escaped the "
-         "array and every view lies inside it. Refuted: slice bounds beyond Py_ssize_t raise OverflowError; offsetof "
-         "with zero-size items divides by zero.",
+         "index 0; offsetof('T[]',i) = i*size or OverflowError; addressof(x,i) = x+i in both directions when i*size fits "
+         "Py_ssize_t; history invariant: after any sequence of index/slice/slice-assignment/p+i/p-i/p-q/addressof "
+         "operations in which memory is reached through array views, no access escaped the owned array and every array "
+         "view lies inside it. The two defects found (slice bounds beyond Py_ssize_t -> OverflowError; offsetof with "
+         "zero-size items -> SIGFPE) are fixed in /repo (85f0b65, d1f06da); the model follows two flags regenerated "
+         "from the source (C16/Gen.v). Thorough tier repeats the sequences on an ASan/UBSan build.",
     note="Trusted: Coq kernel; hand model C16/Model.v (tied by differential testing); the reference semantics in "
          "tools/props/c16.py; CPython int/slice objects. Value conversion is out of scope (C03/C05). Theorems closed "
          "under the global context.",
